@@ -185,6 +185,24 @@ def handleRw (st : Option RwState) (cmd : List String) : Option RwState × Strin
               rwOut s n none (showLight light)
             | _ => (none, "panic")
           | _, _ => (none, "bad-op")
+        -- `nosave`: the application does not store the commit index of the LightReady
+        | "advance_append", ["nosave"] =>
+          match s.pending, takeEffect eff with
+          | some rd, some (e, []) =>
+            match s.n.advanceAppend rd e with
+            | .ok (n, light) => rwOut s n none (showLight light)
+            | _ => (none, "panic")
+          | _, _ => (none, "bad-op")
+        | "advance", ["nosave"] =>
+          match s.pending, takeEffect eff with
+          | some rd, some (e1, rest) =>
+            match takeEffect rest with
+            | some (e2, []) =>
+              match s.n.advance rd e1 e2 with
+              | .ok (n, light) => rwOut s n none (showLight light)
+              | _ => (none, "panic")
+            | _ => (none, "bad-op")
+          | _, _ => (none, "bad-op")
         | "advance", [] =>
           match s.pending, takeEffect eff with
           | some rd, some (e1, rest) =>
